@@ -540,3 +540,48 @@ def judge_graph(c):
 
 
 JUDGES["graph"] = judge_graph
+
+
+def judge_history(c):
+    """C02 on the implementation: every Run of the history returns what a freshly loaded model returns
+    for the same inputs (bit for bit), leaves the caller's tensors, the weights and the protobuf as they were"""
+    impl = c["impl"]
+    key = ("history", c.get("stream"), impl["status"])
+    if impl["status"] != "ok" or not isinstance(impl.get("extra"), dict):
+        return J(corr="skip", verdict="violates", tag="history.harness." + impl["status"], what="history could not be run: " + impl.get("msg", "")[:120], key=key)
+    for i, s in enumerate(impl["extra"]["steps"]):
+        if s["status"] == "panic":
+            return J(corr="skip", verdict="violates", tag="history.panic", what=f"Run {i} panics: {s.get('detail','')[:100]}", key=key)
+        if not s["equal_fresh"]:
+            return J(corr="skip", verdict="violates", tag="history.depends_on_history", what=f"Run {i} differs from a freshly loaded model: {s.get('detail','')[:140]}", key=key)
+        if not s["inputs_unchanged"]:
+            return J(corr="skip", verdict="violates", tag="history.caller_tensor_modified", what=f"Run {i}: {s.get('detail','')[:140]}", key=key)
+        if not s["weights_unchanged"]:
+            return J(corr="skip", verdict="violates", tag="history.weights_modified", what=f"Run {i} altered the model's weights", key=key)
+        if not s["proto_unchanged"]:
+            return J(corr="skip", verdict="violates", tag="history.proto_modified", what=f"Run {i} altered the protobuf-backed data of the model", key=key)
+    key = ("history", c.get("stream"), tuple(s["status"] for s in impl["extra"]["steps"]))
+    return J(corr="skip", verdict="holds", key=key)
+
+
+JUDGES["history"] = judge_history
+
+
+def judge_purity(c):
+    """C02 at operator level: whatever the operator returns, its inputs are exactly as they were
+    (shape, strides, element type, contents); model and implementation agree on that"""
+    j = judge_op(c)
+    impl = c["impl"]
+    if impl.get("mut"):
+        return J(corr=j.corr, verdict="violates", tag="purity." + str(c.get("op")) + ".mutates-input",
+                 what=f"{c.get('op')} modified an input: {impl.get('mut')}", key=j.key)
+    return J(corr=j.corr, verdict="holds", key=(c.get("op"), c.get("stream"), impl["status"], bool(impl.get("alias"))))
+
+
+_judge_plain = judge
+
+
+def judge(c):
+    if c.get("prop") == "C02" and c.get("kind") in ("op", "bcast"):
+        return judge_purity(c)
+    return _judge_plain(c)
